@@ -47,6 +47,20 @@ Theorem C15_schema_changes_never_fire : forall g t b,
   forallb is_schema_action b = true -> fired g t b = [].
 Proof. exact schema_bundle_never_fires. Qed.
 
+(* The everyday interactions need no side condition either: ONE user-level record update, or ONE user-level
+   add, that carries no value for the trigger column is regular for every configuration and table. *)
+Theorem C15_single_update_fires_iff : forall g t cols recs r,
+  memz trc cols = false ->
+  In r (rows (step g t [UUpd cols recs])) -> unconstrained g t [UUpd cols recs] r = false ->
+  memz r (fired g t [UUpd cols recs]) = spec g t [UUpd cols recs] r.
+Proof. intros g t cols recs r H. apply fires_iff_spec. apply regular_single_update. exact H. Qed.
+
+Theorem C15_single_add_fires_iff : forall g t cols recs r,
+  memz trc cols = false ->
+  In r (rows (step g t [UAdd cols recs])) -> unconstrained g t [UAdd cols recs] r = false ->
+  memz r (fired g t [UAdd cols recs]) = spec g t [UAdd cols recs] r.
+Proof. intros g t cols recs r H. apply fires_iff_spec. apply regular_single_add. exact H. Qed.
+
 (* ---------------------------------------------------------------- the five refutations (columns: 0 = trigger
    column, 1..3 = data columns A B C, 4 = formula column F reading B, 5 = formula column G reading C) *)
 Definition fc := [(4, 2); (5, 3)].
